@@ -203,7 +203,7 @@ pub fn check(case: &Case, st: &mut Stats) -> Result<(), Violation> {
 }
 
 pub fn run(ctx: &Ctx, st: &mut Stats) -> Vec<Violation> {
-    let mut v = run_proptest(ctx, st, "random", ctx.cases(30_000, 300_000), strategy, check);
+    let mut v = run_proptest(ctx, st, "random", ctx.cases(30_000, 3_000_000), strategy, check);
     if !v.is_empty() {
         return v;
     }
@@ -310,7 +310,7 @@ fn deep_sweeps(ctx: &Ctx, st: &mut Stats) -> Vec<Violation> {
                 }
             }
             // random
-            for chunk in 0..64u64 {
+            for chunk in 0..256u64 {
                 let case = Case {
                     cfg: c,
                     u8_storage: false,
